@@ -38,14 +38,27 @@ pub fn gen_tree(rng: &mut Rng, vocab: &[&str], depth: usize) -> Tree {
     if depth == 0 || rng.chance(1, 5) {
         return leaf(rng);
     }
+    // operands: random sub-trees, now and then a duplicated operand or an empty one `()`
+    let operands = |rng: &mut Rng, n: usize| -> Vec<Tree> {
+        let mut v: Vec<Tree> = (0..n).map(|_| gen_tree(rng, vocab, depth - 1)).collect();
+        if rng.chance(1, 8) {
+            let d = v[rng.usize(v.len())].clone();
+            v.push(d);
+        }
+        if rng.chance(1, 20) {
+            let at = rng.usize(v.len() + 1);
+            v.insert(at, Tree::Or(vec![]));
+        }
+        v
+    };
     match rng.below(10) {
         0..=3 => {
             let n = 2 + rng.usize(2);
-            Tree::And((0..n).map(|_| gen_tree(rng, vocab, depth - 1)).collect())
+            Tree::And(operands(rng, n))
         }
         4..=6 => {
             let n = 2 + rng.usize(2);
-            Tree::Or((0..n).map(|_| gen_tree(rng, vocab, depth - 1)).collect())
+            Tree::Or(operands(rng, n))
         }
         _ => Tree::Not(Box::new(gen_tree(rng, vocab, depth - 1))),
     }
